@@ -115,15 +115,41 @@ class Plan(object):
         ctl = [p for p in P.kernel_parameters if p.is_control]
         self.control = ctl[0] if ctl else None
         self.structure = bool(info.structure_factor)
+        # vector parameters whose length is the multiplicity (id, declared length); those typed 'sld' carry magnetism
+        self.vectors = [(p.id, p.length) for p in P.kernel_parameters if p.length > 1]
+        self.vector_slds = [(p.id, p.length) for p in P.kernel_parameters if p.length > 1 and p.type == "sld"]
 
     def control_values(self):
+        """multiplicities used: the default, default+1, default+3 (inside the limits)"""
         p = self.control
         if p is None:
             return []
         lo, hi = int(p.limits[0]), int(p.limits[1])
         d = int(p.default)
-        vals = [v for v in (d + 1, d + 3) if lo <= v <= hi]
-        return vals[:2]
+        return [v for v in (d, d + 1, d + 3) if lo <= v <= hi]
+
+    def in_use(self, mult):
+        """multiplicity in effect for a cfg 'mult' entry"""
+        return int(mult[1]) if mult else int(self.control.default)
+
+    def expected_hidden(self, n):
+        """
+        Names a multiplicity-n object has no use for, stated independently of ModelInfo.get_hidden_parameters:
+        the control itself (given to the constructor), elements k > n of every vector parameter and the magnetic
+        companions of those elements.  A model that declares its own hidden() rule (rpa) is taken at its word.
+        """
+        if self.control is None:
+            return set()
+        out = {self.control.name}
+        if self.info.hidden is not None:
+            return out | set(self.info.hidden(n))
+        slds = dict(self.vector_slds)
+        for vid, length in self.vectors:
+            for k in range(n + 1, length + 1):
+                out.add(vid + str(k))
+                if vid in slds:
+                    out.update(vid + str(k) + tag for tag in ("_M0", "_mtheta", "_mphi"))
+        return out
 
 
 _PLANS = {}
@@ -141,11 +167,14 @@ def eq_models(ctx):
 
 def setup(ctx):
     _imports()
-    names = set(eq_models(ctx)) | set(SEL_MODELS_QUICK if ctx.quick else SEL_MODELS_THOROUGH)
+    names = (set(eq_models(ctx)) | set(SEL_MODELS_QUICK if ctx.quick else SEL_MODELS_THOROUGH)
+             | set(m for m, _ in (REUSE_QUICK if ctx.quick else REUSE_THOROUGH)))
     compiled = set(build.compiled_models())
     bad = build.prebuild(ctx, [n for n in names if n in compiled])
     if bad:
         raise HarnessError("models failed to build: %r" % bad)
+    from .. import zygote
+    zygote.start(ctx, "c10", _preload)       # pristine processes for the reuse sequences
 
 
 def _dims(pl, ctx):
@@ -162,10 +191,11 @@ def _dims(pl, ctx):
     if not pl.structure:
         dims.append(("common", "given", ["omitted"]))
     if pl.magnetic:
-        dims.append(("magnetic", False, [True]))
+        # True: the first SLD; "last": the last element in use of every vector SLD (multiplicity models)
+        dims.append(("magnetic", False, [True] + (["last"] if pl.vector_slds else [])))
     if pl.control is not None:
         vals = pl.control_values()
-        dims.append(("mult", None, [["ctor", v] for v in vals[:1]] + [["param", v] for v in vals[-1:]]))
+        dims.append(("mult", None, [["ctor", v] for v in vals] + [["param", v] for v in vals[-1:]]))
     dims.append(("svmode", "setParam", ["set_dispersion", "array"]))
     return dims
 
@@ -182,9 +212,19 @@ def cases(ctx):
                     continue
                 if not any(cfg.get(x) for x in ("pd0", "pd1", "pdo")):
                     cfg["svmode"] = "setParam"        # no dispersity: the three ways of passing it coincide
-                if cfg.get("magnetic") and cfg["q"] == "1d":
-                    cfg["magnetic"] = False           # magnetism exists for 2-D only
+                if cfg.get("magnetic"):
+                    cfg["q"] = "2d"                   # magnetism exists for 2-D data only
                 out.append({"kind": "eq", "model": m, "cfg": cfg})
+        # magnetic family: every element in use of every vector SLD, for every multiplicity used, both ways of
+        # giving the multiplicity, all interfaces, 2-D
+        if pl.magnetic and pl.control is not None and pl.vector_slds:
+            base = {d[0]: d[1] for d in dims}
+            for n in pl.control_values():
+                for vid, length in pl.vector_slds:
+                    for k in range(1, min(n, length) + 1):
+                        for how in ("ctor", "param"):
+                            out.append({"kind": "eq", "model": m,
+                                        "cfg": dict(base, q="2d", mult=[how, n], magnetic=["elem", vid + str(k)])})
     for m in (SEL_MODELS_QUICK if ctx.quick else SEL_MODELS_THOROUGH):
         for dk in ("plain", "dx0", "dx", "dxmix", "slit", "2d", "2dres"):
             for n in (4, 50):
@@ -192,6 +232,8 @@ def cases(ctx):
                     out.append({"kind": "sel", "model": m, "data": dk, "n": n, "pd": pd})
     for m in eq_models(ctx):
         out.append({"kind": "unk", "model": m})
+    for m, qk in (REUSE_QUICK if ctx.quick else REUSE_THOROUGH):
+        out.append({"kind": "reuse", "model": m, "q": qk})
     return out
 
 
@@ -245,13 +287,27 @@ def settings_for(pl, cfg):
     mult = cfg.get("mult")
     if mult:
         values[pl.control.name] = mult[1]
-    if cfg.get("magnetic") and pl.magnetic and cfg.get("q") == "2d":
-        values[pl.sld + "_M0"] = 3.0
-        values[pl.sld + "_mtheta"] = 30.0
-        values[pl.sld + "_mphi"] = 20.0
+        for name in [n for n in pd if n in pl.expected_hidden(mult[1])]:
+            del pd[name]          # no dispersity on an element beyond the multiplicity (in any interface)
+    magnetised = []
+    mag = cfg.get("magnetic")
+    if mag and pl.magnetic and cfg.get("q") == "2d":
+        if mag == "last" and pl.vector_slds:
+            n = pl.in_use(mult)
+            magnetised = [vid + str(min(n, length)) for vid, length in pl.vector_slds if n >= 1]
+        elif isinstance(mag, (list, tuple)) and mag[0] == "elem":
+            magnetised = [mag[1]]
+        if not magnetised:
+            magnetised = [pl.sld]
+        for j, name in enumerate(magnetised):
+            if name not in pl.by_name:
+                raise HarnessError("%s: no SLD parameter %r" % (pl.name, name))
+            values[name + "_M0"] = 3.0 + j
+            values[name + "_mtheta"] = 30.0 + 5 * j
+            values[name + "_mphi"] = 20.0 - 5 * j
         values["up_frac_i"], values["up_frac_f"], values["up_theta"], values["up_phi"] = 0.3, 0.6, 70.0, 25.0
     return {"values": values, "pd": pd, "cutoff": cfg.get("cutoff", 1e-5), "mult": mult, "q": cfg.get("q", "1d"),
-            "svmode": cfg.get("svmode", "setParam"), "cut1": cut1}
+            "svmode": cfg.get("svmode", "setParam"), "cut1": cut1, "magnetised": magnetised}
 
 
 def underscore_pars(st):
@@ -281,14 +337,11 @@ def sasview_object(pl, st, mods):
     cls = sasview_class(pl.name, sasview_model)
     mult = st["mult"]
     obj = cls(mult[1]) if (mult and mult[0] == "ctor") else cls()
+    hidden = set(pl.expected_hidden(mult[1])) if (mult and mult[0] == "ctor") else set()
     for name, v in st["values"].items():
-        if name not in obj.params:
-            par = pl.by_name[name]
-            hidden_ok = (pl.structure and name in ("scale", "background")) or (mult and mult[0] == "ctor")
-            if not hidden_ok:
-                raise HarnessError("%s: parameter %r is not settable on the SasView object" % (pl.name, name))
-            continue
-        obj.setParam(name, v)
+        if name in hidden:
+            continue      # an element beyond the multiplicity / the control given to the constructor
+        obj.setParam(name, v)       # a name the other interfaces take and this one refuses raises here
     for name, (t, n, w, ns) in st["pd"].items():
         if st["svmode"] == "setParam":
             obj.setParam(name + ".width", w)
@@ -350,6 +403,8 @@ def run_case(case, ctx):
                 return _run_sel(case, ctx)
             if case["kind"] == "unk":
                 return _run_unk(case, ctx)
+            if case["kind"] == "reuse":
+                return _run_reuse(case, ctx)
     raise HarnessError("unknown case kind %r" % case["kind"])
 
 
@@ -427,8 +482,11 @@ def _run_eq(case, ctx):
         br.append("scale-background-defaulted")
     if pl.structure:
         br.append("structure-factor")
-    if cfg.get("magnetic") and st["q"] == "2d" and pl.magnetic:
+    if st["magnetised"]:
         br.append("magnetic")
+        if pl.vector_slds and st["mult"] and any(
+                name == vid + str(pl.in_use(st["mult"])) for name in st["magnetised"] for vid, _ in pl.vector_slds):
+            br.append("magnetic-last-element-in-use:" + st["mult"][0])
     if st["q"] == "2d":
         br.append("2d")
     if "Iq" in res:
@@ -837,8 +895,277 @@ def _run_unk(case, ctx):
                {"clause": "raises", "interface": k, "model": pl.name, "q": "1d", "exception": type(bad[k]).__name__})
     else:
         r.ok(nt=False, outcome="legitimate-accepted", branches=["legitimate-accepted"])
+    _name_sets(r, pl, mods, k2)
     if not r.samples:
         r.sample({"model": pl.name, "names_tried": len(names), "examples": [n[1] for n in names[:6]]})
+    return r
+
+
+_DOTTED = (("", ""), ("_pd", ".width"), ("_pd_n", ".npts"), ("_pd_nsigma", ".nsigmas"), ("_pd_type", ".type"))
+
+
+def _name_sets(r, pl, mods, kernel2d):
+    """
+    Structural clause: for the plain object and for every multiplicity used, the names the SasView object takes
+    (setParam/getParam: parameters, dispersity attributes, magnetic parameters), translated to the keyword scheme,
+    are exactly the names call_kernel takes minus those a multiplicity-n object has no use for.
+    """
+    import re
+    bumps_model, direct_model, sasview_model, weights, sdata, resolution, resolution2d = mods
+    from sasmodels.direct_model import call_kernel
+    cls = sasview_class(pl.name, sasview_model)
+    sample = {"": 1.0, "_pd": 0.0, "_pd_n": 3, "_pd_nsigma": 3.0, "_pd_type": "gaussian"}
+    direct = set()
+    candidates = []
+    for p in pl.call:
+        for us, dot in _DOTTED:
+            candidates.append((p.name + us, p.name + dot, p.default if us == "" else sample[us]))
+    for us_name, _, val in candidates:
+        try:
+            call_kernel(kernel2d, {us_name: val}, cutoff=0.0)
+            direct.add(us_name)
+        except TypeError:
+            pass                      # "Unused parameters in call"
+        except Exception:  # noqa - the name was taken; what the evaluation does with the value is not this clause
+            direct.add(us_name)
+    mults = [None] + (pl.control_values() if pl.control is not None else [])
+    for n in mults:
+        obj = cls() if n is None else cls(n)
+        hidden = set() if n is None else pl.expected_hidden(n)
+        if pl.structure:
+            hidden |= {"scale", "background"}
+        taken = set()
+        for us_name, dotted, val in candidates:
+            try:
+                cur = obj.getParam(dotted)
+                obj.setParam(dotted, cur)
+                taken.add(us_name)
+            except ValueError:
+                pass
+        expected = set()
+        for us_name in direct:
+            base = us_name
+            for us, _ in _DOTTED[1:]:
+                if us_name.endswith(us) and us_name[:-len(us)] in pl.by_name:
+                    base = us_name[:-len(us)]
+            if base not in hidden:
+                expected.add(us_name)
+        br = ["name-set-checked", "name-set-multiplicity-%s" % ("none" if n is None else "ctor")]
+        wrong = sorted((expected - taken) | (taken - expected))
+        if not wrong:
+            r.ok(nt=n is not None, outcome="name-set:%d" % min(len(taken), 9), branches=br, n=1)
+            continue
+        seen = set()
+        for name in wrong:
+            refuses = "sasview" if name in expected else "direct"
+            pattern = re.sub(r"\d+", "#", name)
+            if (refuses, pattern) in seen:
+                continue
+            seen.add((refuses, pattern))
+            r.fail("%s multiplicity=%r: the name %r is %s" % (
+                pl.name, n, name,
+                "taken by call_kernel/DirectModel (and in use for this multiplicity) but refused by the SasView object "
+                "(setParam/getParam raise ValueError)" if refuses == "sasview" else
+                "taken by the SasView object but refused by call_kernel/DirectModel or beyond the multiplicity"),
+                {"clause": "name-set-mismatch", "interface": refuses, "pattern": pattern},
+                {"multiplicity": n, "name": name}, branches=br)
+
+
+# ------------------------------------------------------------------------------------------------
+# reuse: ONE calculator object per interface evaluated for setting A, then changed to setting B
+
+REUSE_VARIANTS = ["base", "param", "width", "npts", "nsigmas", "type", "cutoff", "magnetic"]
+REUSE_QUICK = [["sphere", "1d"], ["cylinder", "2d"]]
+REUSE_THOROUGH = REUSE_QUICK + [["sphere", "2d"], ["core_shell_sphere", "1d"], ["core_multi_shell", "2d"],
+                                ["hardsphere", "1d"], ["ellipsoid", "2d"], ["parallelepiped", "1d"]]
+REUSE_INTERFACES = ["call_kernel", "DirectModel", "bumps", "sasview", "sasview-set_dispersion", "Iq"]
+
+
+def _reuse_variants(pl, q):
+    return [v for v in REUSE_VARIANTS if v != "magnetic" or (q == "2d" and pl.magnetic)]
+
+
+def _reuse_setting(pl, q, variant, f):
+    """the base setting, or the base setting changed in exactly one respect; every setting states the same keys"""
+    st = settings_for(pl, {"q": q, "pd0": ["gaussian", 4, 0.1, 3.0], "cutoff": 1e-5, "nominal": f})
+    name = pl.size[0]
+    t, n, w, ns = st["pd"][name]
+    if q == "2d" and pl.magnetic:
+        st["values"][pl.sld + "_M0"] = 2.0
+        st["values"][pl.sld + "_mtheta"] = 30.0
+        st["values"]["up_frac_i"] = 0.3
+    if variant == "param":
+        st["values"][name] = st["values"][name] * 1.125
+    elif variant == "width":
+        w = 0.2
+    elif variant == "npts":
+        n = 6
+    elif variant == "nsigmas":
+        ns = 2.0
+    elif variant == "type":
+        t = "lognormal"
+    elif variant == "cutoff":
+        st["cutoff"] = 0.01
+    elif variant == "magnetic":
+        st["values"][pl.sld + "_M0"] = 3.5
+    elif variant != "base":
+        raise HarnessError("variant %r" % variant)
+    st["pd"][name] = (t, n, w, ns)
+    return st
+
+
+def _preload():
+    _imports()
+
+
+def _reuse_child(arg):
+    """runs in a pristine process: every interface's single object is taken through the sequence of settings"""
+    mods = _imports()
+    bumps_model, direct_model, sasview_model, weights, sdata, resolution, resolution2d = mods
+    from sasmodels.direct_model import call_kernel, DirectModel
+    pl = plan(arg["model"])
+    q = _qvec(arg["q"])
+    sts = [_reuse_setting(pl, arg["q"], v, arg["f"]) for v in arg["seq"]]
+    model = build.model(pl.name)
+    out = {}
+
+    def mk_data():
+        if arg["q"] == "2d":
+            return sdata.Data2D(x=q[0].copy(), y=q[1].copy())
+        return sdata.Data1D(x=q[0].copy())
+
+    def record(key, steps):
+        res = []
+        try:
+            for step in steps:
+                res.append(np.array(step(), float).tobytes().hex())
+        except Exception as exc:  # noqa
+            res.append("ERR:%r" % (exc,))
+        out[key] = res
+
+    with warnings.catch_warnings():
+        warnings.simplefilter("ignore")
+        with np.errstate(all="ignore"):
+            kernel = model.make_kernel([v.copy() for v in q])
+            record("call_kernel", [(lambda st=st: call_kernel(kernel, underscore_pars(st), cutoff=st["cutoff"])) for st in sts])
+
+            calc = DirectModel(mk_data(), model, cutoff=sts[0]["cutoff"])
+
+            def dm(st):
+                calc.cutoff = st["cutoff"]
+                return calc(**underscore_pars(st))
+            record("DirectModel", [(lambda st=st: dm(st)) for st in sts])
+
+            state = {}
+
+            def bm(i, st):
+                pars = underscore_pars(st)
+                if i == 0:
+                    state["model"] = bumps_model.Model(model, **pars)
+                    state["ex"] = bumps_model.Experiment(mk_data(), state["model"], cutoff=st["cutoff"])
+                else:
+                    for k, v in pars.items():
+                        if k.endswith("_pd_type"):
+                            setattr(state["model"], k, v)
+                        else:
+                            getattr(state["model"], k).value = v
+                    state["ex"].cutoff = st["cutoff"]
+                state["ex"].update()          # what a fit calls whenever parameters have changed
+                return state["ex"].theory()
+            record("bumps", [(lambda i=i, st=st: bm(i, st)) for i, st in enumerate(sts)])
+
+            for key, mode in (("sasview", "setParam"), ("sasview-set_dispersion", "set_dispersion")):
+                holder = {}
+
+                def sv(i, st, mode=mode, holder=holder):
+                    st = dict(st, svmode=mode)
+                    if i == 0:
+                        holder["obj"] = sasview_object(pl, st, mods)
+                    else:
+                        obj = holder["obj"]
+                        for name, v in st["values"].items():
+                            obj.setParam(name, v)
+                        for name, (t, n, w, ns) in st["pd"].items():
+                            if mode == "setParam":
+                                obj.setParam(name + ".width", w)
+                                obj.setParam(name + ".npts", n)
+                                obj.setParam(name + ".type", t)
+                                obj.setParam(name + ".nsigmas", ns)
+                            else:
+                                obj.set_dispersion(name, weights.DISTRIBUTIONS[t](n, w, ns))
+                        obj.cutoff = st["cutoff"]
+                    obj = holder["obj"]
+                    return obj.evalDistribution([q[0].copy(), q[1].copy()] if arg["q"] == "2d" else q[0].copy())
+                record(key, [(lambda i=i, st=st, sv=sv: sv(i, st)) for i, st in enumerate(sts)])
+
+            if all(st["cutoff"] == 1e-5 for st in sts):
+                def iq(st):
+                    pars = underscore_pars(st)
+                    if arg["q"] == "2d":
+                        return direct_model.Iqxy(pl.name, q[0].copy(), q[1].copy(), **pars)
+                    return direct_model.Iq(pl.name, q[0].copy(), **pars)
+                record("Iq", [(lambda st=st: iq(st)) for st in sts])
+    return out
+
+
+def _run_reuse(case, ctx):
+    from .. import zygote
+    r = R()
+    pl = plan(case["model"])
+    qk = case["q"]
+    f = 1.0 if ctx.seed == 0 else ctx.factor(2)
+    variants = _reuse_variants(pl, qk)
+
+    def child(seq):
+        out = zygote.call(ctx, "c10", "mc.props.c10:_reuse_child", {"model": pl.name, "q": qk, "seq": seq, "f": f})
+        if "value" not in out:
+            raise HarnessError("reuse child failed for %s %s %s: %s" % (pl.name, qk, seq, str(out)[-600:]))
+        return out["value"]
+
+    def decode(h):
+        return h if h.startswith("ERR:") else np.frombuffer(bytes.fromhex(h), float)
+
+    fresh = {v: child([v]) for v in variants}
+    fk0 = {"model": pl.name, "q": qk}
+    # the fresh objects agree across interfaces as usual
+    for v in variants:
+        ref = fresh[v]["call_kernel"][0]
+        for iface, res in fresh[v].items():
+            br = ["reuse-fresh"]
+            if res[0].startswith("ERR:") or res[0] != ref:
+                r.fail("%s %s setting %r (%s): fresh %s gives %s, fresh call_kernel gives %s"
+                       % (pl.name, qk, v, _describe(pl, _reuse_setting(pl, qk, v, f)), iface, decode(res[0]), decode(ref)),
+                       dict(fk0, clause="raises" if res[0].startswith("ERR:") else "mismatch", interface=iface),
+                       {"setting": v}, branches=br)
+            else:
+                r.ok(nt=True, outcome="fresh-agree", branches=br)
+    for a in variants:
+        for b in variants:
+            if a == b:
+                continue
+            changed = "+".join(sorted(x for x in (a, b) if x != "base"))
+            seq = child([a, b])
+            for iface in REUSE_INTERFACES:
+                if iface not in seq:
+                    continue
+                br = ["reuse-sequence", "reuse-changed-" + changed, "reuse-interface-" + iface]
+                sub = {"first": a, "then": b, "interface": iface}
+                got = seq[iface]
+                want_b = fresh[b].get(iface)
+                if want_b is None:
+                    continue
+                if len(got) == 2 and not got[1].startswith("ERR:") and got[1] == want_b[0] and got[0] == fresh[a][iface][0]:
+                    r.ok(nt=True, outcome="reuse-ok:" + iface, trans=2, branches=br)
+                    continue
+                which = "second" if (len(got) == 2 and got[0] == fresh[a][iface][0]) else "first"
+                r.fail("%s %s: ONE %s object evaluated for setting %r and then changed to setting %r (changed: %s)\n"
+                       "  B = %s\n  %s evaluation of the reused object = %s\n  fresh object with that setting only = %s"
+                       % (pl.name, qk, iface, a, b, changed, _describe(pl, _reuse_setting(pl, qk, b, f)), which,
+                          decode(got[-1]), decode(want_b[0] if which == "second" else fresh[a][iface][0])),
+                       dict(fk0, clause="reuse", interface=iface, changed=changed), sub, branches=br, trans=2)
+    if not r.samples:
+        r.sample({"model": pl.name, "q": qk, "settings": variants, "ordered_pairs": len(variants) * (len(variants) - 1),
+                  "interfaces": REUSE_INTERFACES})
     return r
 
 
@@ -868,3 +1195,13 @@ def finish(ctx, report):
         report.require("refused-" + label, 100, "unknown names refused by " + label)
     report.require("kind-pd-on-nondispersible", 100, "dispersity suffix on a non-dispersible parameter")
     report.require("legitimate-accepted", 10, "legitimate names accepted")
+    report.require("magnetic-last-element-in-use:ctor", 6, "magnetism on the last vector element in use, multiplicity constructor")
+    report.require("magnetic-last-element-in-use:param", 6, "magnetism on the last vector element in use, control parameter")
+    report.require("name-set-checked", 16, "accepted-name sets compared")
+    report.require("name-set-multiplicity-ctor", 8, "accepted-name sets for multiplicity objects")
+    report.require("reuse-fresh", 10, "fresh objects for the reuse settings")
+    report.require("reuse-sequence", 100, "two-setting sequences on one object")
+    for v in ("param", "width", "npts", "nsigmas", "type", "cutoff", "magnetic"):
+        report.require("reuse-changed-" + v, 8, "sequence changing only " + v)
+    for i in REUSE_INTERFACES:
+        report.require("reuse-interface-" + i, 20, "reused " + i + " object")
